@@ -77,9 +77,19 @@ def hessDual (a : α) (z : V3 α) : Sym3 α :=
 /-- `update_dual_grad_H` : `(grad, H_dual)` -/
 def updateDualGradH (a : α) (z : V3 α) : V3 α × Sym3 α := (gradDual a z, hessDual a z)
 
-/-- start of the Newton–Raphson iteration of `_newton_raphson_powcone` -/
-def nrX0 (s3 phi : α) : α :=
+/-- **PRE-FIX** start of `_newton_raphson_powcone` (the code before /repo commit 54b486f): the
+constants `2` and `3` of the symmetric case `a = ½`.  Kept only so that the finding
+NR-START-RIGHT-OF-ROOT stays a theorem about the old code (`newtonRaphsonOld`, `gradientPrimalOld`). -/
+def nrX0Old (s3 phi : α) : α :=
   (-(recip s3)) + (s3 * 2 + sqrt ((phi * phi) / (s3 * s3) + phi * 3)) / (phi - s3 * s3)
+
+/-- `ψ = 1/(a² + (1-a)²)` -/
+def nrPsi (a : α) : α := recip (a * a + (1 - a) * (1 - a))
+
+/-- start of the Newton–Raphson iteration of `_newton_raphson_powcone` (since /repo 54b486f) -/
+def nrX0 (a s3 phi : α) : α :=
+  let ψ := nrPsi a
+  (-(recip s3)) + (s3 * ψ + sqrt ((phi * phi) / (s3 * s3) + phi * (ψ * ψ - 1))) / (phi - s3 * s3)
 
 def nrT0 (a : α) : α := (-2) * a * logsafe a - 2 * (1 - a) * logsafe (1 - a)
 
@@ -99,7 +109,11 @@ def nrF1 (s3 a : α) (x : α) : α :=
 
 /-- `_newton_raphson_powcone` : (result, number of passes through the loop body) -/
 def newtonRaphson (s3 phi a : α) : α × Nat :=
-  newtonRaphsonOnesided (nrF0 s3 phi a) (nrF1 s3 a) 100 (nrX0 s3 phi) 0
+  newtonRaphsonOnesided (nrF0 s3 phi a) (nrF1 s3 a) 100 (nrX0 a s3 phi) 0
+
+/-- **PRE-FIX** `_newton_raphson_powcone` (start `nrX0Old`) -/
+def newtonRaphsonOld (s3 phi a : α) : α × Nat :=
+  newtonRaphsonOnesided (nrF0 s3 phi a) (nrF1 s3 a) 100 (nrX0Old s3 phi) 0
 
 /-- `gradient_primal` given the value of `g[2]` for `|s₃|` -/
 def gradientPrimalOf (a : α) (x : α) (s0 s1 s2 : α) : V3 α :=
@@ -115,6 +129,16 @@ def gradientPrimal (a : α) (s : V3 α) : V3 α :=
   let abs_s := fabs s2
   if FloatLike.eps < abs_s then
     gradientPrimalOf a (newtonRaphson abs_s phi a).1 s0 s1 s2
+  else
+    ((-(1 + a)) / s0, (-(2 - a)) / s1, 0)
+
+/-- **PRE-FIX** `gradient_primal` (uses `newtonRaphsonOld`) -/
+def gradientPrimalOld (a : α) (s : V3 α) : V3 α :=
+  let s0 := s.1; let s1 := s.2.1; let s2 := s.2.2
+  let phi := powf s0 (2 * a) * powf s1 (2 - a * 2)
+  let abs_s := fabs s2
+  if FloatLike.eps < abs_s then
+    gradientPrimalOf a (newtonRaphsonOld abs_s phi a).1 s0 s1 s2
   else
     ((-(1 + a)) / s0, (-(2 - a)) / s1, 0)
 
@@ -210,6 +234,48 @@ def stepLength (a : α) (dz ds z s : V3 α) (step aMin aMax : α) (fuel : Nat) :
   let az ← backtrackSearch (v3toArray dz) (v3toArray z) aMax aMin step (inDual a) fuel
   let as ← backtrackSearch (v3toArray ds) (v3toArray s) aMax aMin step (inPrimal a) fuel
   pure (az, as)
+
+/-- the part of `higher_correction` after the solve `H u = ds`: `η` as a function of `z, u, v`
+(same operations as the tail of `higherCorrection`) -/
+def higherCorrectionOf (a : α) (z u v : V3 α) : V3 α :=
+  let z0 := z.1; let z1 := z.2.1; let z2 := z.2.2
+  let u0 := u.1; let u1 := u.2.1
+  let v0 := v.1; let v1 := v.2.1
+  let two : α := 2
+  let four : α := 4
+  let phi := powf (z0 / a) (two * a) * powf (z1 / (1 - a)) (two - two * a)
+  let ψ := phi - z2 * z2
+  let e0 := two * a * phi / z0
+  let e1 := two * (1 - a) * phi / z1
+  let e2 := (-two) * z2
+  let η : V3 α := (e0, e1, e2)
+  let Hψ : Sym3 α :=
+    { d1 := four * a * (1 - a) * phi / (z0 * z1)
+      d0 := two * a * (two * a - 1) * phi / (z0 * z0)
+      d3 := 0
+      d2 := two * (1 - a) * (1 - two * a) * phi / (z1 * z1)
+      d4 := 0
+      d5 := -two }
+  let dotψu := Sym3.dot3 u η
+  let dotψv := Sym3.dot3 v η
+  let Hψv := Hψ.mul v
+  let coef := (Sym3.dot3 u Hψv * ψ - two * dotψu * dotψv) / (ψ * ψ * ψ)
+  let coef2 := four * a * (two * a - 1) * (1 - a) * phi * (u0 / z0 - u1 / z1) * (v0 / z0 - v1 / z1) / ψ
+  let invψ2 := recip (ψ * ψ)
+  let e0 := coef * e0 - two * (1 - a) * u0 * v0 / (z0 * z0 * z0) + coef2 / z0 + Hψv.1 * dotψu * invψ2
+  let e1 := coef * e1 - two * a * u1 * v1 / (z1 * z1 * z1) - coef2 / z1 + Hψv.2.1 * dotψu * invψ2
+  let e2 := coef * e2 + Hψv.2.2 * dotψu * invψ2
+  let Hψu := Hψ.mul u
+  let c := dotψv * invψ2
+  let e0 := c * Hψu.1 + 1 * e0
+  let e1 := c * Hψu.2.1 + 1 * e1
+  let e2 := c * Hψu.2.2 + 1 * e2
+  (e0 * (0.5 : α), e1 * (0.5 : α), e2 * (0.5 : α))
+
+/-- `combined_ds_shift`: `shift = grad·σμ - η` with `η = higher_correction(step_s, step_z)` -/
+def combinedDsShift (a : α) (H : Sym3 α) (grad z stepZ stepS : V3 α) (σμ : α) : V3 α :=
+  let η := higherCorrection a H z stepS stepZ
+  (grad.1 * σμ - η.1, grad.2.1 * σμ - η.2.1, grad.2.2 * σμ - η.2.2)
 
 end Pow
 end Clarabel
